@@ -19,6 +19,8 @@ func main() {
 		selftest()
 	case "pipeline":
 		pipeline()
+	case "forward":
+		forward(nil, nil)
 	default:
 		fmt.Fprintln(os.Stderr, "unknown subcommand", os.Args[1])
 		os.Exit(2)
